@@ -210,7 +210,7 @@ pub fn check(s: &'static dyn Proto, c: &Case, st: &mut Stats, _k: &KnownFindings
         st.eval(1);
         ensure!(tr.len() == base.len(), "transcript length differs under plan {p:?}");
         for ((na, a), (nb, b)) in tr.iter().zip(base.iter()) {
-            ensure!(na == nb, "HARNESS-BUG: transcript order");
+            assert!(na == nb, "HARNESS-BUG: transcript order");
             if a != b {
                 return Err(Fail::new(format!(
                     "plan {p:?} (0 none,1 native,2 bincode,3 json at [setup,file,client-reg,client-login,server-login]) changes '{na}': reloaded={} uninterrupted={}",
